@@ -17,6 +17,7 @@ from concurrent.futures import ThreadPoolExecutor
 
 from . import extract as X
 from .facts import Facts
+from . import normalise
 from .report import Report
 
 VERIF = os.path.dirname(os.path.dirname(os.path.abspath(__file__)))
@@ -93,6 +94,7 @@ def run_fixture(prop, mod, fx, repo, slot):
         except X.BuildFailed as e:
             return {"name": fx["name"], "status": "nobuild", "detail": e.log[-600:]}
         F = Facts(fd, meta)
+        normalise.normalise(F)
         sub = Report(prop, "thorough")
         mod.run(F, sub)
         shutil.rmtree(fd, ignore_errors=True)
